@@ -41,6 +41,10 @@ REGRESS = os.path.join(ROOT, "regressions")
 KNOWN = os.path.join(ROOT, "known_findings.jsonl")
 REPO = os.path.abspath(os.environ.get("VERIF_REPO", "/repo"))
 NCPU = int(os.environ.get("VERIF_JOBS", "16"))
+if REPO != "/repo":
+    # self-test runs against scratch trees must not touch the real evidence or replays
+    EVID = os.path.join(WORK, "alt-evidence")
+    REPLAYS = os.path.join(WORK, "alt-replays")
 
 GOENV = dict(os.environ)
 GOENV.update({
